@@ -38,7 +38,13 @@ func (c17) Gen(r *rand.Rand, tier string, run int) *core.Case {
 	}
 	c.Params["prefill"] = []int{0, 0, 0, 7, 9, 10, 11}[r.IntN(7)]
 	actors := 2 + r.IntN(4)
-	shutdown := r.IntN(4) // 0: nobody shuts down inside the race (main closes at the end)
+	// 0: nobody shuts down inside the race (main closes at the end); 4: the
+	// peer goes away in the middle of a message; 5: the peer sends something
+	// that is no message and stays
+	shutdown := r.IntN(6)
+	if shutdown == 5 && c.Params["peer_lazy"] >= 1000 {
+		shutdown = 3
+	}
 	for a := 0; a < actors; a++ {
 		n := 2 + r.IntN(6)
 		for i := 0; i < n; i++ {
@@ -65,7 +71,7 @@ func (c17) Gen(r *rand.Rand, tier string, run int) *core.Case {
 		}
 	}
 	if shutdown != 0 {
-		kind := []string{"", "close", "peerclose", "peerreset"}[shutdown]
+		kind := []string{"", "close", "peerclose", "peerreset", "peerpartial", "peergarbage"}[shutdown]
 		pos := r.IntN(len(c.Ops) + 1)
 		op := core.Op{Kind: kind, Actor: r.IntN(actors)}
 		c.Ops = append(c.Ops[:pos:pos], append([]core.Op{op}, c.Ops[pos:]...)...)
@@ -102,6 +108,17 @@ type c17state struct {
 	e           net.EndPoint
 	peer        *simnet.Conn
 	finalClose  int64
+	lostSeq     int64 // the peer ended the connection (or broke the stream) at this moment
+	settled     int64 // ... and everything that followed from it had happened by this one
+}
+
+func (st *c17state) lost() {
+	s := zzsim.Seq()
+	st.mu.Lock()
+	if st.lostSeq == 0 {
+		st.lostSeq = s
+	}
+	st.mu.Unlock()
 }
 
 func (st *c17state) markShutdown() {
@@ -198,11 +215,36 @@ func (c17) Run(c *core.Case, env *core.Env) {
 					st.markShutdown()
 					err := peer.Close()
 					env.Return(h, "", err)
+					st.lost()
 				case "peerreset":
 					h := env.Invoke(a, "peerreset", "")
 					st.markShutdown()
 					peer.Abort()
 					env.Return(h, "", nil)
+					st.lost()
+				case "peerpartial":
+					// the peer goes away in the middle of a message: a header
+					// (or a part of one) whose payload never comes
+					h := env.Invoke(a, "peerpartial", "")
+					st.markShutdown()
+					f := ref.NewFrame(ref.Call, 1, 1, 2, 0x7700, []byte("0123456789")).Encode()
+					_, err := peer.Write(f[:[]int{1, 4, 27, 28, 33}[int(op.Y)%5]])
+					if err == nil {
+						err = peer.Close()
+					}
+					env.Return(h, "", err)
+					st.lost()
+				case "peergarbage":
+					// the peer sends what is no message and stays connected
+					h := env.Invoke(a, "peergarbage", "")
+					st.markShutdown()
+					f := ref.NewFrame(ref.Call, 1, 1, 2, 0x7701, nil).Encode()
+					f[int(op.Y)%4] ^= 0x40
+					_, err := peer.Write(f)
+					env.Return(h, "", err)
+					if err == nil {
+						st.lost()
+					}
 				}
 			}
 		}(a)
@@ -214,6 +256,18 @@ func (c17) Run(c *core.Case, env *core.Env) {
 		env.S.Quiesce()
 	} else {
 		wg.Wait()
+	}
+	// when the peer ended the connection the endpoint shuts down by itself:
+	// whatever follows from that has happened once nothing can run any more
+	st.mu.Lock()
+	lost := st.lostSeq != 0
+	st.mu.Unlock()
+	if lost {
+		env.S.Quiesce()
+		s := zzsim.Seq()
+		st.mu.Lock()
+		st.settled = s
+		st.mu.Unlock()
 	}
 	// final shutdown: every handler registered before it must be closed
 	h := env.Invoke(99, "final-close", "")
@@ -411,6 +465,14 @@ func (c17) Check(c *core.Case, env *core.Env, res zzsim.Result, v *core.Verdict)
 			}
 			if len(r.closeSeqs) != 1 && r.kind != 6 {
 				bad("queue-not-closed-once", "%s was registered before shutdown began (%d): queue closed %d times", name, st.shutdownSeq, len(r.closeSeqs))
+			}
+			// a shutdown caused by the peer or by the transport closes the
+			// handlers without anybody calling Close
+			if st.settled != 0 {
+				env.Probe("handlers-judged-after-the-peer-ended-the-connection")
+				if len(r.closerSeqs) == 0 || r.closerSeqs[0] > st.settled {
+					bad("not-closed-when-the-connection-was-lost", "%s: the peer ended the connection at %d; when nothing could run any more (%d) the close callback had not run (it ran at %v, the application's own Close came at %d)", name, st.lostSeq, st.settled, r.closerSeqs, st.finalClose)
+				}
 			}
 		}
 	}
